@@ -13,7 +13,8 @@ import (
 
 // vhManipKeyIds: C19, "a key identifier hashed from manipulated key bits
 // follows those bits", through the real GenerateArtifacts for a root and a
-// subordinate. The public-key-bits manipulation (symbolic bytes) is set on
+// subordinate. The public-key-bits manipulation (three symbolic bytes, or the
+// empty value) is set on
 // the root, on the subordinate, or on both; subject and authority key
 // identifiers are requested as hashes in either order. Every hashed
 // identifier is SHA-1 of the key bits that actually stand in the certificate
@@ -38,7 +39,8 @@ func vhManipKeyIds() {
 	rootCfg := &config.CertificateContent{Alias: "root", Subject: vDN("root", false), Validity: val,
 		KeyAlgorithm: cert.P256, SignatureAlgorithm: cert.ECDSAwithSHA256, SerialNumber: 11, Extensions: rootExts}
 	if who != 1 {
-		rootCfg.Manipulations.TbsPublicKey = &asn1.BitString{Bytes: vBytes("rootbits", 3), BitLength: 24}
+		n := vChoose("rootbits.len", 2) * 3 // "!empty" or three bytes
+		rootCfg.Manipulations.TbsPublicKey = &asn1.BitString{Bytes: append([]byte{}, vBytes("rootbits", n)...), BitLength: 8 * n}
 	}
 	d.ents = append(d.ents, &vEnt{alias: "root", cfg: rootCfg, meta: &Metadata{}, art: &BuildArtifact{}, parent: -1})
 	rootArt, err := GenerateArtifacts(d, "root")
@@ -50,7 +52,8 @@ func vhManipKeyIds() {
 	subCfg := &config.CertificateContent{Alias: "sub", Issuer: "root", Subject: vDN("sub", false), Validity: val,
 		KeyAlgorithm: cert.P256, SignatureAlgorithm: cert.ECDSAwithSHA256, SerialNumber: 12, Extensions: subExts}
 	if who != 0 {
-		subCfg.Manipulations.TbsPublicKey = &asn1.BitString{Bytes: vBytes("subbits", 3), BitLength: 24}
+		n := vChoose("subbits.len", 2) * 3
+		subCfg.Manipulations.TbsPublicKey = &asn1.BitString{Bytes: append([]byte{}, vBytes("subbits", n)...), BitLength: 8 * n}
 	}
 	d.ents = append(d.ents, &vEnt{alias: "sub", cfg: subCfg, meta: &Metadata{}, art: &BuildArtifact{}, parent: 0})
 	subArt, err := GenerateArtifacts(d, "sub")
